@@ -7,7 +7,7 @@
 (* behind, every node of the target linked to a live parent).  This module  *)
 (* composes the two for the calls an application really makes:              *)
 (*                                                                         *)
-(*   Load(front end, text, format, flags, failAt)                           *)
+(*   Load(front end, text, format, flags, failAt, logger)                   *)
 (*     success: target := forest denoted by the text, by the front end's    *)
 (*              replace / merge rule                                        *)
 (*     refused: target unchanged                                            *)
@@ -129,16 +129,23 @@ CoreParseT2(kids, good, tree) ==            \* parse_node.c: temporary root conf
   ELSE IF kids = <<>> THEN [ok |-> TRUE, kids |-> tree]          \* root->children = conf.children
   ELSE IF tree = <<>> THEN [ok |-> TRUE, kids |-> kids]          \* nothing to add
   ELSE [ok |-> TRUE, kids |-> Unknown]                           \* mpt_node_move + clear superseded
-NodeParseT2(kids, good, tree) ==            \* node_parse.c: old = children; children = 0; parse; clear old | restore
+(* lg = the optional logger argument: 0 = none (NULL), 1 = a log target.  It selects the exit path of the failure   *)
+(* branch (message with the line, or a plain return); the old children are put back on both.                       *)
+NodeParseT2(kids, good, tree, lg) ==        \* node_parse.c: old = children; children = 0; parse; clear old | restore
   LET old == kids
       r == CoreParseT2(<<>>, good, tree)
-  IN IF r.ok THEN [ok |-> TRUE, kids |-> r.kids] ELSE [ok |-> FALSE, kids |-> old]
-CxxReadT2(kids, good, tree) ==              \* parse.cpp: node tmp; on success mpt_node_clear(&to), children handed over
-  IF good THEN [ok |-> TRUE, kids |-> tree] ELSE [ok |-> FALSE, kids |-> kids]
-FrontT2(fe, kids, good, tree) ==
-  IF fe = "nodeparse" THEN NodeParseT2(kids, good, tree)
-  ELSE IF IsCxx(fe) THEN CxxReadT2(kids, good, tree)
+      restored == old                       \* conf->children = old, before the (optional) message
+  IN IF r.ok THEN [ok |-> TRUE, kids |-> r.kids]
+     ELSE IF lg = 0 THEN [ok |-> FALSE, kids |-> restored] ELSE [ok |-> FALSE, kids |-> restored]
+CxxReadT2(kids, good, tree, lg) ==          \* parse.cpp: node tmp; on success mpt_node_clear(&to), children handed over;
+  IF good THEN [ok |-> TRUE, kids |-> tree]  \* on failure tmp is cleared, then (lg = 0) plain return | message
+  ELSE [ok |-> FALSE, kids |-> kids]
+FrontT2(fe, kids, good, tree, lg) ==
+  IF fe = "nodeparse" THEN NodeParseT2(kids, good, tree, lg)
+  ELSE IF IsCxx(fe) THEN CxxReadT2(kids, good, tree, lg)
   ELSE CoreParseT2(kids, good, tree)
+(* which values of the optional logger argument a front end has *)
+LogsOf(fe) == IF Merges(fe) THEN {0} ELSE {0, 1}
 
 ---------------------------------------------------------------------------
 (* what a load must show.  alts = the permitted complete observations.      *)
@@ -147,34 +154,35 @@ OkAlt(fe, new, txt) ==
   [ret |-> "ok", links |-> 0, fds |-> 0, badfree |-> 0]
     @@ (IF new = Unknown THEN [ret |-> "ok"] ELSE [tree |-> new])
     @@ (IF fe = "nodeparse" THEN [ret |-> "ok"] ELSE [line_in |-> {1 + NL(txt)}])   \* every line break counted once
-ErrAlt(fe, tgt, txt) ==
-  [ret |-> "error", tree |-> tgt, line_in |-> 0..(1 + NL(txt)),
-   links |-> 0, net |-> 0, fds |-> 0, badfree |-> 0]
+ErrAlt(fe, tgt, txt, lg) ==
+  [ret |-> "error", tree |-> tgt, links |-> 0, net |-> 0, fds |-> 0, badfree |-> 0]
+    @@ (IF fe = "nodeparse" /\ lg = 0 THEN [ret |-> "error"]          \* mpt_node_parse reports the line to the logger only
+        ELSE [line_in |-> 0..(1 + NL(txt))])
 
-Alts(fe, good, k, tgt, new, txt) ==
-  IF ~good THEN << ErrAlt(fe, tgt, txt) >>
+Alts(fe, good, k, tgt, new, txt, lg) ==
+  IF ~good THEN << ErrAlt(fe, tgt, txt, lg) >>
   ELSE IF k = 0 THEN << OkAlt(fe, new, txt) >>
-  ELSE << OkAlt(fe, new, txt), ErrAlt(fe, tgt, txt) >>
+  ELSE << OkAlt(fe, new, txt), ErrAlt(fe, tgt, txt, lg) >>
 
 ResetDoc ==
   /\ text' = <<>> /\ stack' = << [n |-> <<>>, k |-> <<>>] >> /\ nn' = 0
   /\ obs' = [a |-> "none", arg |-> [x |-> 0], exp |-> [ret |-> "ok", tree |-> <<>>, links |-> 0, ev |-> <<>>]]
 
 FailOK(fe, k) == IsCxx(fe) => k = 0            \* no allocation seam below the C++ front end
-LoadAlts(fe, lacc, k) ==
-  Alts(fe, DocGood(EffAcc(fe, lacc)), k, target, Result(fe, target, DocTree), DocText)
-LoadObs(fe, lacc, k) ==
+LoadAlts(fe, lacc, k, lg) ==
+  Alts(fe, DocGood(EffAcc(fe, lacc)), k, target, Result(fe, target, DocTree), DocText, lg)
+LoadObs(fe, lacc, k, lg) ==
   [a |-> "load",
-   arg |-> [fe |-> fe, fmt |-> BB(cfg.fmt), acc |-> BB(LoadAcc(lacc)), text |-> DocText, fail |-> k],
-   exp |-> [alts |-> LoadAlts(fe, lacc, k)]]
+   arg |-> [fe |-> fe, fmt |-> BB(cfg.fmt), acc |-> BB(LoadAcc(lacc)), text |-> DocText, fail |-> k, log |-> lg],
+   exp |-> [alts |-> LoadAlts(fe, lacc, k, lg)]]
 LoadOK(fe, lacc, k) == fe # "folder" /\ FeOK(fe, lacc) /\ FailOK(fe, k) /\ target # Unknown /\ aside = <<>>
 
-Load(fe, lacc, k, out) ==
-  /\ LoadOK(fe, lacc, k) /\ nl < MaxLoads
-  /\ LET lo   == LoadObs(fe, lacc, k)
+Load(fe, lacc, k, lg, out) ==
+  /\ LoadOK(fe, lacc, k) /\ nl < MaxLoads /\ lg \in LogsOf(fe)
+  /\ LET lo   == LoadObs(fe, lacc, k, lg)
          alts == lo.exp.alts
          new  == Result(fe, target, DocTree)
-         t2   == FrontT2(fe, target, DocGood(EffAcc(fe, lacc)) /\ alts[out].ret = "ok", DocTree)
+         t2   == FrontT2(fe, target, DocGood(EffAcc(fe, lacc)) /\ alts[out].ret = "ok", DocTree, lg)
      IN /\ out \in DOMAIN alts
         /\ target' = IF alts[out].ret = "ok" THEN new ELSE target
         /\ fobs' = [a |-> lo.a, arg |-> lo.arg, exp |-> lo.exp, t2 |-> t2.kids]
@@ -202,18 +210,18 @@ Perms(s) ==
   IN {[i \in 1..n |-> s[f[i]]] : f \in bij}
 
 FolderFiles == Append(aside, [text |-> DocText, ev |-> DocEv, good |-> DocRet = "ok"])
-FolderObs(k, hidden) ==
+FolderObs(k, hidden, lg) ==
   LET files == FolderFiles
       good == \A i \in DOMAIN files : files[i].good
       okA  == [ret |-> "ok", files_in |-> Perms([i \in DOMAIN files |-> files[i].ev]),
                net |-> 0, fds |-> 0, badfree |-> 0]
       errA == [ret |-> "error", net |-> 0, fds |-> 0, badfree |-> 0]
   IN [a |-> "load",
-      arg |-> [fe |-> "folder", files |-> [i \in DOMAIN files |-> files[i].text], hidden |-> hidden, fail |-> k],
+      arg |-> [fe |-> "folder", files |-> [i \in DOMAIN files |-> files[i].text], hidden |-> hidden, fail |-> k, log |-> lg],
       exp |-> [alts |-> IF ~good THEN <<errA>> ELSE IF k = 0 THEN <<okA>> ELSE <<okA, errA>>]]
-LoadFolder(k, hidden, out) ==
+LoadFolder(k, hidden, lg, out) ==
   /\ FeOK("folder", Same) /\ nl < MaxLoads
-  /\ LET lo == FolderObs(k, hidden) IN
+  /\ LET lo == FolderObs(k, hidden, lg) IN
         /\ out \in DOMAIN lo.exp.alts
         /\ fobs' = [a |-> lo.a, arg |-> lo.arg, exp |-> lo.exp, t2 |-> target]
   /\ nl' = nl + 1
@@ -271,9 +279,9 @@ FInit ==
 
 FNext ==
   \/ (nl < MaxLoads /\ DocNext /\ UNCHANGED <<target, pre, aside, nl, fobs>>)
-  \/ \E fe \in FrontEnds, lacc \in LoadAccs, k \in 0..MaxFail, out \in 1..2 : Load(fe, lacc, k, out)
+  \/ \E fe \in FrontEnds, lacc \in LoadAccs, k \in 0..MaxFail, lg \in 0..1, out \in 1..2 : Load(fe, lacc, k, lg, out)
   \/ PutAside
-  \/ \E k \in 0..MaxFail, h \in BOOLEAN, out \in 1..2 : LoadFolder(k, h, out)
+  \/ \E k \in 0..MaxFail, h \in BOOLEAN, lg \in 0..1, out \in 1..2 : LoadFolder(k, h, lg, out)
   \/ NewDoc
   \/ Clear
 
